@@ -129,6 +129,14 @@ CHECKS = {
                      'packets: 14 JSON mutations and every metadata key that manager.py/events.py/values.py read from an event '
                      '(computed from the AST of the current source) with hostile values; dump/load round trip over a grammar',
                 note='trusted: z3/pathex; the sender coroutine is advanced by the harness; one recorded known finding (a raising remote handler never answers)'),
+    'C20': dict(engine='pathex+crosshair', technique=TECH_XH, ref='DESIGN.md 4/C20',
+                text='bounded symbolic execution of the real credential check, session binding and virtual-host code behind the HTTP '
+                     'component: every Authorization header of a grammar over Basic and Digest (correct Digest responses from an '
+                     'independent RFC 2617 routine) x user tables x methods x two application idioms, with "protected result served" '
+                     'equivalent to "credentials verify"; pairs of requests over cookie x address x user agent; trusted-gateway '
+                     'configuration x remote address x X-Forwarded-Host; CrossHair on the credential check with a symbolic header '
+                     '(bug-hunting: does not close, listed as not discharged)',
+                note='trusted: z3/pathex, CrossHair, the RFC 2617 reference in harness/c20.py; header grammar in harness/c20.py'),
 }
 
 NOT_YET = {
